@@ -190,3 +190,19 @@ def joinElems : List Bytes → Bytes
   | e :: es => e ++ 44 :: joinElems es
 
 end CaddyModel.C15
+
+/-! ### responses that must be left alone -/
+namespace CaddyModel.C15
+
+/-- the handler's header forbids encoding: a Content-Encoding is already there (precompressed file, upstream
+    that compressed itself) or `Cache-Control` says `no-transform` -/
+def ineligible (h : Hdr) : Bool := !(hGet h kCE).isEmpty || !isEncodeAllowed h
+
+/-- a call that is not an edit of the header map -/
+def Op.isHeaderEdit {α : Type} : Op α → Bool
+  | .hset _ _ => true
+  | .hadd _ _ => true
+  | .hdel _ => true
+  | _ => false
+
+end CaddyModel.C15
